@@ -17,7 +17,11 @@ from . import rustc_engine as rc
 from .c09 import finish
 
 KINDS = ['split', 'flat', 'multi', 'nested', 'nested', 'payload', 'nested_relaxed_inner', 'unsized', 'unsized2', 'targs:generic', 'targs:concrete', 'targs:lifetime', 'targs:const', 'targs:bounded',
-         'targs:unsized_arg', 'targs:default_omitted', 'targs:unsized_where', 'targs:bounded_composite', 'flat', 'multi']
+         'targs:unsized_arg', 'targs:default_omitted', 'targs:unsized_where', 'targs:bounded_composite', 'flat', 'multi',
+         'targs:nested_arg_wild', 'targs:nested_arg', 'targs:repeated_arg', 'targs:reflexive_mix']
+# kinds without a reference encoding whose blocks are pairwise distinguished on a shared key by
+# construction: the expansion must compile unless the world holds a type satisfying two blocks
+ACCEPT_WITHOUT_REFERENCE = {'targs:nested_arg_wild', 'targs:nested_arg', 'targs:repeated_arg', 'targs:reflexive_mix'}
 
 
 def header_slots(b):
@@ -152,7 +156,7 @@ def split_top(s):
 def run(tier, seed, replay=None):
     rng = random.Random(seed)
     gate = cm.proof_gate(['C03_'])
-    n = 96 if tier == 'quick' else 1600
+    n = 126 if tier == 'quick' else 1680
     if replay:
         rp = json.load(open(replay))
         for k in ('program', 'reference_program'):
@@ -195,8 +199,15 @@ def run(tier, seed, replay=None):
             violations.append(dict(kind='property', request=c.invocation(), program=c.macro_program(), errors=m['errors'][:4],
                                    oracle='the macro itself rejects an invocation whose blocks pairwise differ by non-unifiable bindings of a shared associated type: %s' % m['errors'][:2]))
             continue
-        if ref is None:
+        if ref is None or c.kind in ACCEPT_WITHOUT_REFERENCE:
             stats['reference_unavailable'] += 1
+            if c.kind in ACCEPT_WITHOUT_REFERENCE and not macro_ok and s['ok'] and s.get('run_ok'):
+                S = {}
+                for k, v in pe.parse_table(s['stdout'], 'S').items():
+                    S[int(k.split('_')[0])] = S.get(int(k.split('_')[0]), 0) + (v == 'true')
+                if all(cnt <= 1 for cnt in S.values()):
+                    violations.append(dict(kind='property', request=c.invocation(), program=c.macro_program(), errors=m['errors'][:4],
+                                           oracle='the expansion of an invocation whose blocks are pairwise distinguished on a shared key (no probe satisfies two blocks) does not compile: %s' % m['errors'][:3]))
             continue
         if not (rr['ok'] and rr.get('run_ok')):
             stats['reference_rejected'] += 1     # the hand-written encoding is not accepted either: inconclusive
